@@ -27,7 +27,7 @@ Record event := mkEvent { epath : path; ety : tyid; evalue : option Z }.   (* No
 
 Record scinfo := mkInfo { si_id : nat; si_path : option path; si_max : option Z; si_already : Z }.
 
-Inductive vsrc := VSType | VSCommandCodes | VSSelection.
+Inductive vsrc := VSType | VSCommandCodes | VSSelection | VSNoCommand.   (* VSNoCommand: the command code itself is absent (None) *)
 
 Inductive err :=
 | EValue (p : path) (tn : string) (v : Z) (src : vsrc)
@@ -49,7 +49,7 @@ Inductive internal :=
 | INoListSize           (* list-valued union member without _list_size *)
 | IEncrypt              (* TPMS_PARAMS.encrypted() assertion *)
 | IRspEncMismatch       (* process_response consistency assert *)
-| IRspNoCommandCode     (* Response decoded with an unknown/absent command code: NameError in handler *)
+| IRspNoCommandCode     (* no longer produced: a response without a known command code raises a value error, see [rsp_no_cc] (was: NameError in the handler) *)
 | IUnionAtRoot          (* union decoded without selector *)
 | IAuthNone             (* is_parameter_encryption on a malformed object *)
 | IStopOnSend           (* pump: processor finished on a byte send *)
